@@ -771,12 +771,12 @@ class Buffer:
         deleted = ""
 
         if self.cursor_position > 0:
-            deleted = self.text[self.cursor_position - count : self.cursor_position]
+            # Never reach before the start of the text. (A negative slice start
+            # would be interpreted relative to the end of the string.)
+            start = max(0, self.cursor_position - count)
+            deleted = self.text[start : self.cursor_position]
 
-            new_text = (
-                self.text[: self.cursor_position - count]
-                + self.text[self.cursor_position :]
-            )
+            new_text = self.text[:start] + self.text[self.cursor_position :]
             new_cursor_position = self.cursor_position - len(deleted)
 
             # Set new Document atomically.
